@@ -1,12 +1,184 @@
-//! C11: not yet implemented
+//! C11: the SqexArg cipher (`physis::blowfish::Blowfish`).
+//!
+//! Case grammar (hex fields, `-` = empty):
+//!   `enc <key> <msg>`   Blowfish::new(key).encrypt(msg)
+//!   `dec <key> <data>`  Blowfish::new(key).decrypt(data)
+//!   `rt <key> <msg>`    decrypt(encrypt(msg))
+//!   `kat <key> <plain> <cipher>`  published ECB vector, block given as the big-endian words L‖R
+//!
+//! Keys are always >= 8 bytes (the property's quantifier; shorter keys panic in `Blowfish::new`).
 #![allow(unused)]
 use crate::util::*;
+use physis::blowfish::Blowfish;
 use std::io::Write;
 
-pub fn generate(thorough: bool, seed: u64, out: &mut dyn Write) {}
+/// P1 of standard Blowfish (first word of frac(pi)); only used to *aim* keys at S-box entries:
+/// the first F call of the key schedule is F(P[0] ^ key[0..4]).
+const PI_P1: u32 = 0x243f6a88;
+
+fn key_of(rng: &mut Rng, len: usize) -> Vec<u8> {
+    match rng.below(12) {
+        0 => vec![0u8; len],
+        1 => vec![0xff; len],
+        2 => vec![0x80; len],
+        // high bit set everywhere (sign-extension class of key-schedule bugs)
+        3 => rng.bytes(len).iter().map(|b| b | 0x80).collect(),
+        4 => (0..len).map(|i| i as u8).collect(),
+        _ => rng.bytes(len),
+    }
+}
+
+fn key_len(rng: &mut Rng) -> usize {
+    match rng.below(10) {
+        0..=3 => 8,
+        4 => 9,
+        5 => 16,
+        6 => 56,
+        7 => rng.range(57, 80) as usize,
+        _ => rng.range(8, 56) as usize,
+    }
+}
+
+fn msg_of(rng: &mut Rng, len: usize) -> Vec<u8> {
+    let mut m = match rng.below(8) {
+        0 => vec![0u8; len],
+        1 => vec![0xff; len],
+        _ => rng.bytes(len),
+    };
+    // trailing zero bytes: indistinguishable from padding after decryption
+    if len > 0 && rng.chance(1, 6) {
+        let z = rng.range(1, len.min(9) as u64) as usize;
+        for b in m[len - z..].iter_mut() {
+            *b = 0;
+        }
+    }
+    m
+}
+
+fn msg_len(rng: &mut Rng, thorough: bool) -> usize {
+    (match rng.below(16) {
+        0..=6 => rng.range(0, 64),
+        7..=10 => rng.range(65, 512),
+        11 | 12 => rng.range(513, 4096),
+        13 => *rng.pick(&[7u64, 8, 9, 15, 16, 17, 4095, 4096, 4097]),
+        14 => 8 * rng.range(1, 64),
+        _ => {
+            if thorough {
+                rng.range(4097, 16384)
+            } else {
+                rng.range(0, 64)
+            }
+        }
+    }) as usize
+}
+
+pub fn generate(thorough: bool, seed: u64, out: &mut dyn Write) {
+    let mut rng = Rng::new(seed, "C11");
+    // (1) directed sweep over the S-boxes: for v in 0..=255 the key's first word is chosen so that
+    // the very first F call of the key schedule reads S[0][v], S[1][v], S[2][v], S[3][v]
+    // (F(P[0] ^ w0) with w0 = P1 ^ vvvv); `rot` shifts the byte per box so that the four boxes are
+    // also hit with different indices in one call.  Every table word therefore feeds every
+    // subkey of at least `reps` keys.
+    let reps = if thorough { 8 } else { 4 };
+    for rep in 0..reps {
+        for v in 0..=255u32 {
+            let rot = |k: u32| (v + k * 64 * (rep as u32 % 4)) & 0xff;
+            let x = (rot(0) << 24) | (rot(1) << 16) | (rot(2) << 8) | rot(3);
+            let w0 = PI_P1 ^ x;
+            let mut key = w0.to_be_bytes().to_vec();
+            key.extend_from_slice(&rng.bytes(4));
+            if rep % 2 == 1 {
+                let extra = rng.range(1, 48) as usize;
+                key.extend_from_slice(&rng.bytes(extra));
+            }
+            let block = if rep == 0 { vec![0u8; 8] } else { rng.bytes(8) };
+            let op = if rep % 2 == 0 { "enc" } else { "dec" };
+            writeln!(out, "{} {} {}", op, hex(&key), hex(&block)).unwrap();
+        }
+    }
+    // (2) every key length 8..=64 x every message length 0..=24 (all residues mod 8, three times)
+    for kl in 8..=64usize {
+        let key = rng.bytes(kl);
+        for ml in 0..=24usize {
+            let m = msg_of(&mut rng, ml);
+            let op = ["enc", "rt", "dec"][(kl + ml) % 3];
+            writeln!(out, "{} {} {}", op, hex(&key), hex(&m)).unwrap();
+        }
+    }
+    // (3) only the first 8 key bytes count: one 8-byte key and many extensions, same message
+    let groups = if thorough { 400 } else { 40 };
+    for _ in 0..groups {
+        let base = key_of(&mut rng, 8);
+        let m = { let l = msg_len(&mut rng, false); msg_of(&mut rng, l) };
+        writeln!(out, "enc {} {}", hex(&base), hex(&m)).unwrap();
+        for _ in 0..3 {
+            let mut k = base.clone();
+            let extra = rng.range(1, 48) as usize;
+            k.extend_from_slice(&rng.bytes(extra));
+            writeln!(out, "enc {} {}", hex(&k), hex(&m)).unwrap();
+        }
+        // and the 8th byte does count
+        let mut k = base.clone();
+        k[7] ^= 1 << rng.below(8);
+        writeln!(out, "enc {} {}", hex(&k), hex(&m)).unwrap();
+    }
+    // (4) random keys / messages, all three operations
+    let n = if thorough { 280_000 } else { 10_000 };
+    for i in 0..n {
+        let kl = key_len(&mut rng);
+        let key = key_of(&mut rng, kl);
+        let ml = msg_len(&mut rng, thorough);
+        let m = msg_of(&mut rng, ml);
+        let op = match i % 4 {
+            0 | 1 => "enc",
+            2 => "rt",
+            _ => "dec",
+        };
+        writeln!(out, "{} {} {}", op, hex(&key), hex(&m)).unwrap();
+    }
+}
+
+fn opt_hex(o: Option<Vec<u8>>) -> String {
+    match o {
+        Some(v) => hex(&v),
+        None => "none".into(),
+    }
+}
+
+/// big-endian word pair `L‖R` -> the 8 bytes whose little-endian words are `L`, `R`
+fn word_swap(b: &[u8]) -> Vec<u8> {
+    b.chunks(4).flat_map(|w| w.iter().rev().cloned().collect::<Vec<u8>>()).collect()
+}
 
 pub fn run(case: &str, input: &str) -> String {
-    "unimplemented".to_string()
+    let f: Vec<&str> = input.split(' ').collect();
+    if f.len() < 3 {
+        return "bad-case".into();
+    }
+    let Some(key) = unhex(f[1]) else { return "bad-case".into() };
+    let Some(data) = unhex(f[2]) else { return "bad-case".into() };
+    if key.len() < 8 {
+        return "bad-case".into();
+    }
+    match (f[0], f.len()) {
+        ("enc", 3) => guarded(move || opt_hex(Blowfish::new(&key).encrypt(&data))),
+        ("dec", 3) => guarded(move || opt_hex(Blowfish::new(&key).decrypt(&data))),
+        ("rt", 3) => guarded(move || {
+            let b = Blowfish::new(&key);
+            match b.encrypt(&data) {
+                Some(c) => opt_hex(b.decrypt(&c)),
+                None => "none".into(),
+            }
+        }),
+        ("kat", 4) => {
+            if data.len() != 8 {
+                return "bad-case".into();
+            }
+            let plain = word_swap(&data);
+            guarded(move || opt_hex(Blowfish::new(&key).encrypt(&plain)))
+        }
+        _ => "bad-case".into(),
+    }
 }
 
 pub fn dump(out: &mut dyn Write) {}
